@@ -160,6 +160,12 @@ class VConst:
     text: str
 
 
+@dataclass
+class VPyClosure:
+    """harness-defined closure: fn(tr, args, dest_loc) emits C"""
+    fn: Any
+
+
 class Storage:
     def __init__(self, prefix: str, is_global: bool):
         self.prefix = prefix
@@ -306,7 +312,14 @@ class Translator:
         if key in self.callmap:
             return self.callmap[key]
         # try suffix match on module-qualified free functions
-        cands = [f for k, f in self.callmap.items() if k.endswith("::" + key) or key.endswith("::" + k)]
+        def modpath(p):
+            return all(seg and (seg[0].islower() or seg[0] == "_") and "<" not in seg and "{" not in seg for seg in p.split("::"))
+        cands = []
+        for k, f in self.callmap.items():
+            if k.endswith("::" + key) and modpath(k[:-len(key) - 2]):
+                cands.append(f)
+            elif key.endswith("::" + k) and modpath(key[:-len(k) - 2]):
+                cands.append(f)
         if len(cands) == 1:
             return cands[0]
         return None
@@ -460,6 +473,8 @@ class Translator:
             return ScalarN(None, name, [], storage, v.ctype)
         if isinstance(v, VUnit):
             return UnitN(None, name, [], storage)
+        if isinstance(v, VPyClosure):
+            return PyClosureN(name, storage, v)
         if isinstance(v, VAgg) and v.variant is None:
             s = StructN(v.ty, name, [], storage)
             for i, f in enumerate(v.fields):
@@ -641,8 +656,10 @@ class Translator:
         ty = inst.local_ty(i)
         name = f"f{inst.uid}_{i}"
         node = None
-        if like is not None and ty.kind in ("closure", "opaque", "param", "fndef"):
+        if like is not None and (ty.kind in ("closure", "opaque", "param", "fndef") or isinstance(like, VPyClosure)):
             node = self.alloc_like(like, name, self.cur.storage)
+            if node.ty is None:
+                node.ty = ty
         else:
             try:
                 node = self.alloc(ty, name, [], self.cur.storage)
@@ -1105,8 +1122,23 @@ class Translator:
                 return "::".join(segs[i:])
         return key
 
+    @staticmethod
+    def normalize_callee(func: str) -> str:
+        """`scheduler::control::<impl Scheduler<DB>>::is_aborted` -> `Scheduler::<DB>::is_aborted`"""
+        m = re.match(r"^((?:[a-z_][a-z0-9_]*::)+)<impl ", func)
+        if not m:
+            return func
+        from rtypes import _match_angle
+        i = m.end() - len("<impl ")
+        j = _match_angle(func, i)
+        inner = func[i + len("<impl "):j]
+        if " as " in inner or " for " in inner:
+            return func
+        base = inner.split("<")[0].strip()
+        return base + func[j + 1:]
+
     def call(self, inst: FnInstance, t: Term):
-        func = t.func
+        func = self.normalize_callee(t.func)
         key = self.canon_key(strip_generics(func))
         for r in self.noop_re:
             if r.search(key):
@@ -1117,6 +1149,12 @@ class Translator:
         args = None
         if m:
             raise TranslateError(f"indirect call through local {func}")
+        stub = self.cfg.get("stubs", {}).get(key)
+        if stub is not None:
+            args = [self.eval_operand(inst, a) for a in t.args]
+            self.models_used["stub:" + key] = self.models_used.get("stub:" + key, 0) + 1
+            stub(self, CallCtx(self, inst, t, key, args))
+            return
         model = self.models.lookup(key)
         if model is not None:
             args = [self.eval_operand(inst, a) for a in t.args]
@@ -1128,6 +1166,8 @@ class Translator:
             model(self, CallCtx(self, inst, t, key, args))
             return
         fn = self.find_fn(func)
+        if fn is None and key != strip_generics(func):
+            fn = self.find_fn(key)
         if fn is not None:
             args = [self.eval_operand(inst, a) for a in t.args]
             dest = self.eval_place(inst, t.place) if t.place is not None and self._ret_needed(fn) else None
@@ -1159,12 +1199,33 @@ class Translator:
                 raise TranslateError(f"no model and no MIR body for callee `{func}` (dispatched key `{key2}`)")
         raise TranslateError(f"no model and no MIR body for callee `{func}` (key `{key}`)")
 
+    def _pyclosure_of(self, v):
+        try:
+            if isinstance(v, VLoc):
+                loc = v.loc
+            elif isinstance(v, VRef):
+                loc = Loc(v.target, v.idxs)
+            else:
+                return None
+            while loc.node.kind == "ref":
+                if loc.node.target is None:
+                    return None
+                loc = self.deref(VLoc(loc))
+            return getattr(loc.node, "pyc", None)
+        except TranslateError:
+            return None
+
     def _ret_needed(self, fn: Function) -> bool:
         rt = fn.ret_ty.strip()
         return rt not in ("()", "!")
 
     def call_closure(self, inst: FnInstance, closure_val, args: List[Any], dest: Optional[Loc], by_ref=True):
         """call a closure value (VLoc of closure struct or reference to it) with explicit args"""
+        if isinstance(closure_val, VPyClosure):
+            return closure_val.fn(self, args, dest)
+        pc = self._pyclosure_of(closure_val)
+        if pc is not None:
+            return pc.fn(self, args, dest)
         if isinstance(closure_val, VConst):
             m = re.search(r"\{closure@[^}]*\}", closure_val.text)
             if m:
@@ -1198,6 +1259,15 @@ class Translator:
         t1 = fn.locals[1].strip()
         env = VRef(loc.node, loc.idxs) if t1.startswith("&") else VLoc(loc)
         return self.inline(fn, [env] + args, dest)
+
+
+class PyClosureN(UnitN):
+    """storage node standing for a harness-defined closure value"""
+    kind = "unit"
+
+    def __init__(self, name, storage, pyc):
+        super().__init__(Ty("closure", name="{pyclosure}"), name, [], storage)
+        self.pyc = pyc
 
 
 class CallCtx:
